@@ -14,7 +14,7 @@ PROPERTY = 'C18'
 TITLE = 'Transects cover exactly the part of the path inside the model, in path order'
 RULE = (
     "One case per (dataset in {CF1D 3x4, CF2D skewed with a hole, SHOC standard with a dry block, mesh M4, "
-    "mesh M7, mesh M8 with concave faces}, first waypoint).  Every simple polyline of 2 or 3 distinct "
+    "mesh M7, mesh M8 with concave faces, CF1D 4x4 at 60N, SHOC standard at 72S}, first waypoint).  Every simple polyline of 2 or 3 distinct "
     "waypoints drawn from a per-dataset set of 8 (two cell interiors, a hole interior, a point on a shared "
     "edge, a shared vertex, three outside points on different sides) is executed: paths starting or "
     "ending inside or outside, crossing holes, leaving and re-entering, running along an edge, missing "
@@ -42,6 +42,8 @@ DATASETS = [
     {'family': 'ugrid', 'mesh': 'M4'},
     {'family': 'ugrid', 'mesh': 'M7'},
     {'family': 'ugrid', 'mesh': 'M8'},
+    {'family': 'cf1d', 'ny': 4, 'nx': 4, 'bounds': 'var', 'lon0': 0.0, 'lat0': 60.0},
+    {'family': 'shoc_standard', 'nj': 3, 'ni': 3, 'geometry': 'skew', 'lon0': 170.0, 'lat0': -72.0},
 ]
 TOL = 1e-9
 
